@@ -101,6 +101,17 @@ func c07Script(rng *rand.Rand) (sig, detail string, trace []string, shape string
 			return "inconclusive", "ghost requests did not reach the peer", tr.Dump(40), "", stats
 		}
 		for _, ip := range gin {
+			if ip.P.Type == mqttref.PUBLISH && ip.P.QoS == 2 && rng.Intn(2) == 0 {
+				// this one gets its PUBREC and is cancelled while waiting for PUBCOMP
+				id := ip.P.ID
+				conn.Send(mqttref.EncAck(mqttref.PUBREC, id), "ghost-rec")
+				if _, ok := peer.WaitIn(scen.Watchdog, 1, func(p *mqttref.Packet) bool { return p.Type == mqttref.PUBREL && p.ID == id }); !ok {
+					return "inconclusive", "ghost PUBREL not seen", tr.Dump(40), "", stats
+				}
+				ghostAcks = append(ghostAcks, mqttref.EncAck(mqttref.PUBCOMP, id))
+				stats["cancelled_while_waiting_pubcomp"]++
+				continue
+			}
 			ghostAcks = append(ghostAcks, scen.AckFor(ip.P))
 			if ip.P.Type == mqttref.PUBLISH && ip.P.QoS == 2 {
 				ghostAcks = append(ghostAcks, mqttref.EncAck(mqttref.PUBCOMP, ip.P.ID))
@@ -111,6 +122,9 @@ func c07Script(rng *rand.Rand) (sig, detail string, trace []string, shape string
 			select {
 			case err := <-g.done:
 				if !errors.Is(err, context.Canceled) {
+					if err == nil {
+						return "completed-without-own-ack", fmt.Sprintf("%s cancelled while waiting for its (final) acknowledgement returned nil: success without the acknowledgement", g.kind), tr.Dump(60), "", stats
+					}
 					return "disturbed", fmt.Sprintf("cancelled %s returned %v, want its context's error", g.kind, err), tr.Dump(60), "", stats
 				}
 			case <-time.After(scen.Watchdog):
